@@ -8,7 +8,7 @@ CONSTANTS
   Versions = {"deneb"}
   Blindable = {"deneb"}
   Outcomes = {"full"}
-  Dslots <- FwdDslots
+  Dslots = {0}
   MaxCalls = 1
   NDuties = 3
   SlotGaps = {0, 1}
@@ -18,6 +18,6 @@ CONSTANTS
   LaterAllChoices = {{1}}
   LaterVersions = {"deneb"}
   LaterOutcomes = {"full"}
-  LaterDslots = {0, 1}
+  LaterDslots = {0}
 INVARIANTS TypeOK OnlyDutySigner SignedIsSelected SubmittedIntact NothingWithoutUnblind DegradesNotSkips CompletesDuty HistoryIndependent
 CHECK_DEADLOCK TRUE
